@@ -77,6 +77,9 @@ package sample
 //@   requires forall k int :: 0 <= k && k < len(tokens) ==> 0 <= tokens[k].id && tokens[k].id < ghost_vocab
 //@   modifies tokens[all], *s.rng
 //@   ensures result.1 == nil ==> 0 <= result.0.id && result.0.id < ghost_vocab
+//@   ensures s.temperature == 0.0 && result.1 == nil ==> (exists k int :: 0 <= k && k < len(tokens) && result.0 == old(tokens[k])) && forall k int :: 0 <= k && k < len(tokens) ==> !(old(tokens[k].value) > result.0.value)
+//@   assert-at call greedy #1 : s.temperature == 0.0
+//@   assert-at call topK #1 : !(s.temperature == 0.0)
 //@   assert-at return #1 : (exists k int :: 0 <= k && k < len(tokens) && result.0 == tokens[k]) && forall k int :: 0 <= k && k < len(tokens) ==> !(tokens[k].value > result.0.value)
 //@   assert-at call (*Rand).Float32 #1 : s.rng != nil && arg0 == s.rng
 //@   assert-at call v2.Float32 #1 : s.rng == nil
